@@ -208,7 +208,17 @@ def _bounded_target(tgt: Optional[Term], heap: Term, h0: Term, U: Term) -> Optio
             els = [x for x in v[2][1] if not x[3] and all(boolfn.eval_leaves(g[1], a) == g[2] for g in x[2])]
             if any(x[3] for x in v[2][1]):
                 raise boolfn.NotBoolean("iterated element")
-            return sorted({repr(T.strip(x[1])) for x in els})
+            out = set()
+            for x in els:
+                xv = T.strip(x[1])
+                # `*heap[:1]`: the earliest step if there is one, nothing otherwise
+                if xv[0] == "star" and T.strip(xv[1])[0] == "idx" and T.strip(xv[1])[1] == heap and T.strip(T.strip(xv[1])[2])[0] == "slice" \
+                        and T.strip(T.strip(xv[1])[2])[1] in (T.NONE, T.const(0)) and T.strip(T.strip(xv[1])[2])[2] == T.const(1) and T.strip(T.strip(xv[1])[2])[3] == T.NONE:
+                    if nonempty:
+                        out.add(repr(h0))
+                    continue
+                out.add(repr(xv))
+            return sorted(out)
         return [repr(v)]
     try:
         ne, em = val(True), val(False)
